@@ -140,3 +140,20 @@ Theorem find_id_exact : forall t0 groups ops t,
   In t (trs (run (init t0 groups) ops)) -> find_id (trs (run (init t0 groups) ops)) (t_id t) = Some t.
 Proof. exact Proofs.find_id_exact. Qed.
 Print Assumptions find_id_exact.
+
+(* a scrape in flight never diverts a due announce: the tracker stays requestable *)
+Theorem scraping_tracker_requestable : forall t,
+  t_en t = true -> t_busy t = true -> t_ev t = EvScrape -> can_request_state t = true.
+Proof. exact Proofs.scraping_tracker_requestable. Qed.
+Print Assumptions scraping_tracker_requestable.
+
+(* a new request to a tracker cancels its result callback still queued for the main thread *)
+Theorem send_event_cancels : forall sr t ev s k,
+  pend (send_event sr t ev s) = Some (t_id t, k) -> log (send_event sr t ev s) = log s.
+Proof. exact Proofs.send_event_cancels. Qed.
+Print Assumptions send_event_cancels.
+
+Theorem send_scrape_guard : forall t s, slog (send_scrape t s) <> slog s ->
+  t_busy t = false /\ t_en t = true /\ t_scr t = true /\ (t_sct t + scrape_min_gap) * usec <= now s.
+Proof. exact Proofs.send_scrape_guard. Qed.
+Print Assumptions send_scrape_guard.
